@@ -132,7 +132,7 @@ def run(ctx):
     feat["hard_numbers"] = cfg.chance(1, 3)
     if multi:
         feat["max_params"] = 2
-        nag = 2 + cfg.draw(3)
+        nag = 1 + cfg.draw(4)  # a "joint" trajectory of a single agent is legal too
         W = C.World(ctx, feat, multi_agent=True, agents=nag)
     else:
         W = C.World(ctx, feat)
